@@ -53,7 +53,10 @@ RULE = ("One case = one fresh temporary repository written through the update_* 
         "half of the grids the first and last knot of every log axis are moved (< 1500 ulp) onto doubles whose numpy-log10 and "
         "libm-log10 differ (either direction). Tables 10**(base+W*U[0,1]) (W <= 6 decades for 'nearest'/'linear' extrapolated "
         "tables, <= 1.5 for quadratically extrapolated 1-D components so that one decade of extrapolation cannot overflow, <= 3 for "
-        "the linear-space beam-CX components); dimensionless tables of order 1 with entries / sref / qref exactly 1.0 for beam "
+        "the linear-space beam-CX components); in a quarter of the cases the dynamic range WITHIN one log-space table is drawn "
+        "up to what float64 holds (1e-300..1e290 in one 2-D table, <= 150 decades in the 3-D one, 1e-250..1e250 for beam sen / beam-CX "
+        "qeb): every entry anywhere in the window, one tiny entry among O(1) ones, one huge among tiny ones, steep A*exp(-E/Te) "
+        "columns - grid reproduction stays 1e-9 relative PER ENTRY; dimensionless tables of order 1 with entries / sref / qref exactly 1.0 for beam "
         "population and beam CX. Sub-checks tab (9 log-log table accessors incl. the 3-D thermal CX PEC), beam "
         "(stopping/population/emission), beamcx, wl (wavelength accessor; other transitions in the same json file), missing "
         "(absent keys: empty repository; existing file with other charges / other transitions / other metastable / data under the "
@@ -92,6 +95,13 @@ TOLERANCES = {"grid": "1e-9 relative per element: cubic spline evaluated at its 
                       "(measured maxima over 3e4 random tables: 4e-13 for 2-D, 4e-12 for the 3-D thermal CX PEC, 7e-14 beam CX); "
                       "1e-9 leaves >= 100x margin and is still 5 orders below the smallest wrong conversion (D/H wavelength 2.7e-4); "
                       "the evidence histogram info.grid_relerr records the errors actually seen",
+              "wide tables": "tables spanning up to 570 decades keep the 1e-9 per-entry tolerance: measured maxima over 12000 random "
+                             "tables 1.6e-11 (2-D, 600 decades); the tri-cubic 3-D rate reaches 1.4e-10 at 600 decades (error grows with "
+                             "the spread), so its in-table range is generated up to 150 decades (expected max ~3.5e-11, >= 25x margin) "
+                             "rather than loosening the tolerance; linear-space beam-CX components stay within 3 decades because a "
+                             "linear-space spline reproduces a knot only to eps*max|table| ABSOLUTE",
+              "denormal": "isotope==element comparisons carry atol=1e-290: interior values of > 300-decade tables can be denormal doubles "
+                          "(fewer than 53 significant bits), where value*lambda no longer has 1e-9 relative meaning",
               "isotope==element": "1e-12 relative (identical arithmetic on identical data); photon rates compared as value*lambda, 1e-9",
               "zero": "exact 0.0 for non-positive arguments and null rates"}
 
@@ -140,6 +150,21 @@ def _count_err(ratio):
     h[">1e-9"] += int(np.sum(~(e <= 1e-9)))
 
 
+NEAREST = set(ADF11) - {"cx_radiated_power_rate"} | set(PEC2) | {"thermal_cx_pec"}     # documented 'nearest neighbour' extrapolation
+
+
+def _span_labels(ctx, acc, values):
+    """dynamic range WITHIN one table, in decades; returns True for > 30 decades (wide class)."""
+    v = np.asarray(values, dtype=np.float64)
+    span = math.log10(float(v.max())) - math.log10(float(v.min()))
+    for lim in (30, 100, 300):
+        if span > lim:
+            ctx.label("range>%ddec" % lim)
+    if span > 30:
+        ctx.label("range>30dec:" + acc)
+    return span > 30
+
+
 def _flag_label(fl):
     return "E%dN%dF%d" % tuple(int(bool(x)) for x in fl)
 
@@ -165,6 +190,8 @@ REQUIRED_LABELS = \
     [sub + ":interference" for sub in ("matrix", "tab", "beam", "beamcx", "wl", "missing")] + \
     [sub + ":interference:" + x for sub in ("matrix", "tab", "beam", "beamcx") for x in ("B-used-before-A", "B-used-after-A", "providers-same-path-other-flags")] + \
     ["matrix:interference:raw_data-unchanged", "tab:interference:raw_data-unchanged"] + \
+    ["matrix:range>30dec:" + a for a in _RATE_ACC] + ["matrix:range>100dec", "matrix:range>300dec"] + \
+    [sub + ":range>" + x for sub in ("tab", "beam", "beamcx") for x in ("30dec", "100dec", "300dec")] + \
     ["tab:reuse:provider-second-key:transition", "tab:reuse:provider-second-key:charge", "beam:reuse:provider-second-key:metastable",
      "beamcx:reuse:provider-second-key:transition"] + \
     ["tab:adform:%d" % i for i in range(3)] + ["missing:variant:default-path", "missing:variant:sibling", "missing:variant:empty"] + \
@@ -328,22 +355,26 @@ def _check_zero_everywhere(ctx, what, rate, battery):
         ctx.check(v == 0.0, what, lambda: "null rate returned %r at %r" % (v, args))
 
 
-def _points(ctx, what, rate, axes, guarded, case, ext, ref=None, ref_scale=1.0, sweep_base=None):
+def _points(ctx, what, rate, axes, guarded, case, ext, ref=None, ref_scale=1.0, sweep_base=None, wide=False, nearest=True):
     """Common evaluation battery for a rate with tabulated axes `axes` (lists of knots).
 
     guarded[k]: argument k is a density / temperature / energy (non-positive => 0)."""
     na = len(axes)
     us = case["us"]
     multi = all(len(a) >= 2 for a in axes)
+    # tables spanning > 30 decades: 10**(cubic overshoot between knots) may legitimately overflow -> only ">= 0, not NaN" inside
+    # (the statement demands finiteness for permitted extrapolation only); extrapolating such a table linearly / quadratically
+    # over a decade overflows by construction, so the 'finite' demand is kept for the documented 'nearest' families only
+    okv = (lambda v: v >= 0.0) if wide else (lambda v: math.isfinite(v) and v >= 0.0)
     # ---- strictly interior points: finite, >= 0, (isotope request == element request)
     for u in us:
         p = [_axis_point(axes[k], u[k]) for k in range(na)]
         v = _call(ctx, what + ":interior", rate, p)
         _counts["interior_points"] += 1
-        ctx.check(math.isfinite(v) and v >= 0.0, what + ":interior", lambda: "value %r at interior point %r" % (v, p))
+        ctx.check(okv(v), what + ":interior", lambda: "value %r at interior point %r" % (v, p))
         if ref is not None:
             w = _call(ctx, what + ":interior-element", ref, p)
-            ctx.close(v * ref_scale[0], w * ref_scale[1], what + ":isotope==element", rtol=ref_scale[2], info="at %r" % (p,))
+            ctx.close(v * ref_scale[0], w * ref_scale[1], what + ":isotope==element", rtol=ref_scale[2], atol=1e-290, info="at %r" % (p,))
     # ---- one point inside EVERY cell of the grid (<= 3 axes) or inside every interval of every axis, the other axes at knots
     # (beam CX: linear-space splines may undershoot, the product must still be >= 0): finite and non-negative
     cf = case.get("cf") or [[0.5] * na]
@@ -364,7 +395,7 @@ def _points(ctx, what, rate, axes, guarded, case, ext, ref=None, ref_scale=1.0, 
                     cells.append(p)
     for p in cells:
         v = _call(ctx, what + ":interior", rate, p)
-        ctx.check(math.isfinite(v) and v >= 0.0, what + ":interior", lambda: "value %r at interior point %r" % (v, p))
+        ctx.check(okv(v), what + ":interior", lambda: "value %r at interior point %r" % (v, p))
         if v == 0.0:
             ctx.label("interior:clamped-to-zero")
     _counts["interior_cells"] += len(cells)
@@ -375,7 +406,7 @@ def _points(ctx, what, rate, axes, guarded, case, ext, ref=None, ref_scale=1.0, 
                 [axes[m][sweep_base[m] % len(axes[m])] for m in range(na)]
             p[k] = 1.0
             v = _call(ctx, what + ":interior", rate, p)
-            ctx.check(math.isfinite(v) and v >= 0.0, what + ":interior", lambda: "value %r at %r (argument %d exactly 1.0)" % (v, p, k))
+            ctx.check(okv(v), what + ":interior", lambda: "value %r at %r (argument %d exactly 1.0)" % (v, p, k))
             ctx.label("arg:exactly-1.0")
     # ---- non-positive density / temperature / energy => exactly 0
     base = [_axis_point(axes[k], us[1][k]) for k in range(na)]
@@ -394,6 +425,9 @@ def _points(ctx, what, rate, axes, guarded, case, ext, ref=None, ref_scale=1.0, 
     # ---- outside the tabulated range, one axis at a time, up to one decade
     base = [_axis_point(axes[k], us[0][k]) for k in range(na)] if not case.get("out_on_grid") else \
         [axes[k][case["out_on_grid"][k] % len(axes[k])] for k in range(na)]
+    if wide and not case.get("out_on_grid"):
+        # other axes at knots: between knots a > 30-decade table may overflow through the spline's overshoot, which is not extrapolation
+        base = [axes[k][int(us[0][k] * len(axes[k])) % len(axes[k])] for k in range(na)]
     for k in range(na):
         if len(axes[k]) < 2:
             ctx.label("range:single-point-axis-not-applied")
@@ -402,7 +436,11 @@ def _points(ctx, what, rate, axes, guarded, case, ext, ref=None, ref_scale=1.0, 
             f = case["fs"][k][side]
             p = list(base)
             p[k] = axes[k][0] / f if side == 0 else axes[k][-1] * f
-            if ext:
+            if ext and wide and not nearest:
+                v = _call(ctx, what + ":extrapolated", rate, p)
+                ctx.check(v >= 0.0, what + ":extrapolated", lambda: "extrapolated value %r at %r" % (v, p))
+                ctx.label("range:wide-table-linear-extrapolation-finite-not-demanded")
+            elif ext:
                 v = _call(ctx, what + ":extrapolated", rate, p)
                 _counts["extrapolated_values"] += 1
                 hh = _counts["extrapolated_log10_abs"]
@@ -478,7 +516,7 @@ class _Interf:
                 p[k] = a[-1] * 2.0
                 if ext:
                     v = _call(ctx, what + ":interference:extrapolated", rate, p)
-                    ctx.check(math.isfinite(v) and v >= 0.0, what + ":interference:extrapolated", lambda: "%s: value %r at %r" % (who, v, p))
+                    ctx.check(v >= 0.0, what + ":interference:extrapolated", lambda: "%s: value %r at %r" % (who, v, p))
                 else:
                     ctx.raises((Exception,), what + ":interference:out-of-range(%s)" % who, rate, *p)
                 return
@@ -682,9 +720,10 @@ def run_tab(case, ctx):
                 g2 = np.empty_like(want)
                 for idx in np.ndindex(*want.shape):
                     g2[idx] = _call(ctx, what + ":grid-element", ref, [axes[k][i] for k, i in enumerate(idx)])
-                ctx.close(got * scale[0], g2 * scale[1], what + ":isotope==element", rtol=scale[2])
+                ctx.close(got * scale[0], g2 * scale[1], what + ":isotope==element", rtol=scale[2], atol=1e-290)
                 ctx.label("isotope==element")
-        multi = _points(ctx, what, rate, axes, [True] * len(axes), case, bool(fl[0]), ref, scale)
+        wide = _span_labels(ctx, acc, table)
+        multi = _points(ctx, what, rate, axes, [True] * len(axes), case, bool(fl[0]), ref, scale, wide=wide, nearest=acc in NEAREST)
         pts = [[axes[k][i] for k, i in enumerate(idx)] for idx in np.ndindex(*want.shape)]
         interf.build()
         interf.alternate(rate, pts, got.ravel().tolist(), axes, rawA, lambda adx: _tab_get(adx, acc, case, name, donor_name), path, ad)
@@ -819,9 +858,10 @@ def run_beam(case, ctx):
                 g2 = np.empty_like(want)
                 for idx in np.ndindex(*want.shape):
                     g2[idx] = _call(ctx, acc + ":grid-element", ref, [axes[k][i] for k, i in enumerate(idx)])
-                ctx.close(got * scale[0], g2 * scale[1], acc + ":isotope==element", rtol=scale[2])
+                ctx.close(got * scale[0], g2 * scale[1], acc + ":isotope==element", rtol=scale[2], atol=1e-290)
                 ctx.label("isotope==element")
-        multi = _points(ctx, acc, rate, axes, [True] * 3, case, bool(fl[0]), ref, scale)
+        wide = _span_labels(ctx, acc, sen)
+        multi = _points(ctx, acc, rate, axes, [True] * 3, case, bool(fl[0]), ref, scale, wide=wide, nearest=False)
         pts = [[axes[k][i] for k, i in enumerate(idx)] for idx in np.ndindex(*want.shape)]
         interf.build()
         interf.alternate(rate, pts, got.ravel().tolist(), axes, None, lambda adx: _beam_get(adx, acc, case, bname, tname), path, ad)
@@ -984,13 +1024,14 @@ def run_beamcx(case, ctx):
                           info="(ratio rate(grid)/(qeb*qti*qni*qz*qb/qref^4 * hc/lambda) at index %r; wavelength=%r)" % (idx, lam))
                 if ref is not None:
                     v2 = _call(ctx, acc + ":grid-element", ref, p)
-                    ctx.close(v * lam, v2 * lam_e, acc + ":isotope==element", rtol=1e-9, info="at %r" % (p,))
+                    ctx.close(v * lam, v2 * lam_e, acc + ":isotope==element", rtol=1e-9, atol=1e-290, info="at %r" % (p,))
             c2 = dict(case)
             c2["out_on_grid"] = base            # other axes at knots: linear-space splines may be <= 0 between knots (early return 0)
             skip = [1, 2] if case.get("skip_beamcx_nonpos") else []
             c2["skip_nonpos"] = skip
             multi = _points(ctx, acc, rate, axes, [True, True, True, False, False], c2, bool(fl[0]),
-                            ref, (lam, lam_e, 1e-9) if ref is not None else 1.0, sweep_base=base)
+                            ref, (lam, lam_e, 1e-9) if ref is not None else 1.0, sweep_base=base,
+                            wide=_span_labels(ctx, acc, qs[0]), nearest=False)
             if sibs is not None:
                 rs = sibs.get(int(rate.donor_metastable))
                 ctx.check(rs is not None, acc + ":grid-sibling", lambda: "sibling key lacks metastable %r" % (rate.donor_metastable,))
@@ -1355,6 +1396,35 @@ def _values(draw, shape, blo, bhi, wmax, magic=False):
     return v.tolist()
 
 
+@st.composite
+def _wide_values(draw, shape, lo, hi, maxspan, temps=None, taxis=1):
+    """Table whose dynamic range WITHIN the table is drawn log-uniformly up to what float64 holds (exponents in [lo, hi], at most
+    `maxspan` decades in one table): rough (every entry anywhere in the window), one tiny entry among O(1) ones, one huge entry
+    among tiny ones, steep A*exp(-E/T) columns along the temperature axis (E/T_min up to ~650)."""
+    n = int(np.prod(shape))
+    kind = draw(st.sampled_from(["rough", "tiny1", "huge1", "arrhenius", "arrhenius"] if temps is not None else ["rough", "tiny1", "huge1"]))
+    span = draw(st.one_of(st.floats(30.0, maxspan), st.just(maxspan)))
+    a = draw(st.floats(lo, hi - span))                      # window [a, a + span] inside [lo, hi]
+    u = np.array(draw(st.lists(st.floats(0.0, 1.0), min_size=n, max_size=n))).reshape(shape)
+    if kind == "rough":
+        ex = a + span * u
+    elif kind == "tiny1":
+        ex = (a + span) - 2.0 * u
+        ex.flat[draw(st.integers(0, n - 1))] = a
+    elif kind == "huge1":
+        ex = a + 2.0 * u
+        ex.flat[draw(st.integers(0, n - 1))] = a + span
+    else:
+        t = np.array(temps, dtype=np.float64)
+        e_ion = span * math.log(10.0) / (1.0 / t[0] - 1.0 / t[-1])          # exp(-E/T) drops by `span` decades from T_max to T_min
+        col = -e_ion / t / math.log(10.0)
+        col = col - col.max()
+        shp = [1] * len(shape)
+        shp[taxis] = len(t)
+        ex = (a + span) + col.reshape(shp) + 0.5 * u
+    return (10.0 ** np.clip(ex, lo, hi)).tolist()
+
+
 def _cf(na):
     return st.lists(st.lists(st.floats(0.05, 0.95), min_size=na, max_size=na), min_size=2, max_size=3)
 
@@ -1424,7 +1494,11 @@ def tab_case(draw, acc=None, flags=None, single=None):
     rng = [(10.0, 21.0), (-1.5, 2.5), (-1.5, 2.5)]
     c["axes"] = [draw(_grid(rng[k][0], rng[k][1], 1 if one[k] else 2, 1 if one[k] else lim[k])) for k in range(na)]
     shape = [len(a) for a in c["axes"]]
-    c["table"] = draw(_values(shape, -25.0 if acc in PHOTON else -40.0, -8.0, 6.0))
+    if draw(st.integers(0, 3)) == 0 and all(n >= 2 for n in shape):
+        # 3-D: <= 150 decades in one table (see TOLERANCES); photon tables >= 1e-280 so that table * h c / lambda stays a normal double
+        c["table"] = draw(_wide_values(shape, -280.0 if acc in PHOTON else -300.0, 290.0, 150.0 if three else 570.0, temps=c["axes"][1]))
+    else:
+        c["table"] = draw(_values(shape, -25.0 if acc in PHOTON else -40.0, -8.0, 6.0))
     c["decoy"] = draw(_decoy) if (_is_iso(name) or (tcx and _is_iso(c["donor"]))) else None
     if acc in PHOTON:
         c["wl_el"], c["wl_iso"] = draw(_wl_pair(name))
@@ -1461,6 +1535,10 @@ def beam_case(draw, acc=None, flags=None, single=None):
         c["sen"] = draw(_values([len(g[0]), len(g[1])], -3.0, 0.0, 1.5 if collapsed else 3.0, magic=True))
         c["st"] = draw(_values([len(g[2])], -1.0, 0.0, 1.5, magic=True))
         c["sref"] = draw(st.one_of(st.just(1.0), st.floats(0.1, 10.0)))
+    elif draw(st.integers(0, 3)) == 0 and not collapsed:
+        c["sen"] = draw(_wide_values([len(g[0]), len(g[1])], -250.0, 250.0, 500.0))
+        c["st"] = draw(_values([len(g[2])], -16.0, -12.0, 1.5))
+        c["sref"] = draw(st.floats(1e-16, 1e-12))
     else:
         c["sen"] = draw(_values([len(g[0]), len(g[1])], -25.0 if acc in PHOTON else -20.0, -8.0, 1.5 if collapsed else 5.0))
         c["st"] = draw(_values([len(g[2])], -16.0, -12.0, 1.5))
@@ -1488,6 +1566,8 @@ def _bcx_data(draw, single):
         d[x] = draw(_grid(rng[k][0], rng[k][1], 1 if one[k] else 2, 1 if one[k] else 5, hmin=0.3, log=(k == 0)))
         # qeb: log space, quadratic extrapolation (<= 1.5 decades); the others: LINEAR space, nearest extrapolation
         d[q] = draw(_values([len(d[x])], -1.0 if unit else -16.0, 0.0 if unit else -12.0, 1.5 if k == 0 else 3.0, magic=unit))
+    if not one[0] and draw(st.integers(0, 3)) == 0:
+        d["qeb"] = draw(_wide_values([len(d["eb"])], -250.0, 250.0, 500.0))
     return d
 
 
@@ -1658,6 +1738,43 @@ def matrix_cases(tier):
                 d[q] = [1.5e-15] if j == k else [1e-15, 2e-15, 2.5e-15]
             if k != 0:
                 d["eb"] = _hx(d["eb"])
+            c = {"k": "beamcx", "flags": fl, "donor": "hydrogen", "recv": "carbon", "rq": 5, "tr": 3, "ms": {"1": d}, "decoy": None,
+                 "wl_el": 529.05, "wl_iso": None, "idx": [[0, 1, 2, 0, 1]], "skip_beamcx_nonpos": bool(_open(F_BCXNP)), "sib": None, "adform": 0}
+            c.update(pts5)
+            yield c
+    # ---- dynamic range WITHIN one table: an ionisation-like exp(-E/Te) cut-off (45 decades), one tiny entry among O(1) ones,
+    # and the full float64 range in one table, for every rate class
+    te5 = [0.2, 0.5, 1.0, 10.0, 100.0]
+    arrh = [[a * 1e-14 * math.exp(-13.6 / t) / (1.0 + 0.01 * t) for t in te5] for a in (1.0, 1.3, 2.1)]      # 1e-44 ... 1e-15
+    tiny1 = [[1.0, 2.0, 0.5, 3.0e-250, 1.5], [2.5, 0.7, 1.1, 0.9, 4.0], [0.3, 5.0, 1e-120, 2.0, 1.0]]
+    full = [[1e-280, 1e290, 3e-100, 7e150, 2e-10], [5e200, 4e-270, 1.0, 6e-33, 8e280], [9e-5, 2e77, 3e-199, 1e289, 5e-279]]
+    for fl in ([0, 0, 0], [1, 0, 0]):
+        for j, tab in enumerate((arrh, tiny1, full)):
+            for acc in TAB_ACC:
+                c = {"k": "tab", "acc": acc, "flags": fl, "sp": "hydrogen", "q": 1, "tr": 0, "decoy": None, "axes": [[1e18, 1e19, 1e20], te5],
+                     "table": tab, "sib": None, "adform": 0, "wl_el": 656.28, "wl_iso": None}
+                c.update(pts2)
+                if acc in ("thermal_cx_rate", "thermal_cx_pec"):
+                    c["donor"], c["dq"] = "hydrogen", 0
+                if acc == "thermal_cx_pec":
+                    c["axes"] = c["axes"] + [[0.5, 5.0]]
+                    # <= 150 decades in one 3-D table (see TOLERANCES)
+                    c["table"] = [[[max(v, 1e-140) if v < 1.0 else min(v, 1e10), 2.0 * (max(v, 1e-140) if v < 1.0 else min(v, 1e10))] for v in row]
+                                  for row in tab]
+                    c.update(pts3)
+                yield c
+            for acc in BEAM_ACC:
+                c = {"k": "beam", "acc": acc, "flags": fl, "beam": "hydrogen", "target": "carbon", "tq": 5, "ms": 1, "tr": 0,
+                     "e": [1e4, 5e4, 1e5], "n": [1e18, 1e19, 1e20, 1e21, 2e21], "t": [0.5, 1.0, 100.0, 1000.0],
+                     "sen": [[min(max(v, 1e-250), 1e250) for v in row] for row in tab], "st": [1e-14, 2e-14, 2.5e-14, 1.2e-14], "sref": 1.5e-14,
+                     "decoy": None, "sib": None, "adform": 0, "wl_el": 656.28, "wl_iso": None}
+                c.update(pts3)
+                yield c
+            d = {"qref": 2e-15}
+            for (x, q), lo in zip(BCX_AXES, (1e4, 100.0, 1e19, 1.0, 1.0)):
+                d[x] = [lo, 2 * lo, 5 * lo, 10 * lo, 20 * lo]
+                d[q] = [1e-15, 2e-15, 2.5e-15, 1.1e-15, 1.3e-15]
+            d["qeb"] = [min(max(v, 1e-250), 1e250) for v in tab[j]]
             c = {"k": "beamcx", "flags": fl, "donor": "hydrogen", "recv": "carbon", "rq": 5, "tr": 3, "ms": {"1": d}, "decoy": None,
                  "wl_el": 529.05, "wl_iso": None, "idx": [[0, 1, 2, 0, 1]], "skip_beamcx_nonpos": bool(_open(F_BCXNP)), "sib": None, "adform": 0}
             c.update(pts5)
